@@ -700,10 +700,8 @@ Definition sel_sub (ls rs : sel) : option sel :=
   match rs with
   | Full => None
   | Partial rb =>
-    match ls with
-    | Full => Some (Partial (bm_diff bm_full rb))
-    | Partial lb => let b' := bm_diff lb rb in if bm_is_empty b' then None else Some (Partial b')
-    end
+    let lb := match ls with Full => bm_full | Partial lb => lb end in
+    let b' := bm_diff lb rb in if bm_is_empty b' then None else Some (Partial b')
   end.
 
 Lemma sub_step_get acc k rs f :
@@ -711,7 +709,8 @@ Lemma sub_step_get acc k rs f :
   if f =? k then match aget k acc with None => None | Some ls => sel_sub ls rs end else aget f acc.
 Proof.
   unfold sub_step. destruct (aget k acc) as [[|lb]|] eqn:E.
-  - destruct rs as [|rb]; cbn [sel_sub]; [apply aget_adel | apply aget_aput].
+  - destruct rs as [|rb]; cbn [sel_sub]; [apply aget_adel|]. cbv zeta.
+    destruct (bm_is_empty (bm_diff bm_full rb)); [apply aget_adel | apply aget_aput].
   - destruct rs as [|rb]; cbn [sel_sub]; [apply aget_adel|]. cbv zeta.
     destruct (bm_is_empty (bm_diff lb rb)); [apply aget_adel | apply aget_aput].
   - destruct (N.eqb_spec f k) as [->|]; [exact E | reflexivity].
@@ -721,35 +720,37 @@ Lemma sel_has_sub ls rs o : sel_wf ls -> sel_wf rs -> o < two32 ->
   sel_has (sel_sub ls rs) o = sel_has (Some ls) o && negb (sel_has (Some rs) o).
 Proof.
   intros Hl Hr Ho. assert (Eo : (o <? two32) = true) by (apply N.ltb_lt; lia).
-  destruct rs as [|rb]; cbn [sel_sub sel_has].
-  - rewrite andb_false_r. reflexivity.
-  - destruct ls as [|lb]; cbn [sel_has].
-    + rewrite bm_mem_diff, bm_mem_full, Eo. reflexivity.
-    + cbn zeta. destruct (bm_is_empty (bm_diff lb rb)) eqn:Em; cbn [sel_has].
-      * assert (Hw : bm_wf (bm_diff lb rb)) by (apply bm_wf_diff; assumption).
-        pose proof (proj1 (bm_is_empty_spec _ Hw) Em o) as Hm. rewrite bm_mem_diff in Hm. symmetry; exact Hm.
-      * apply bm_mem_diff.
+  destruct rs as [|rb].
+  - cbn [sel_sub sel_has]. rewrite andb_false_r. reflexivity.
+  - cbn [sel_sub]. cbv zeta. change (sel_has (Some (Partial rb)) o) with (bm_mem rb o).
+    set (lb := match ls with Full => bm_full | Partial lb => lb end).
+    assert (Hlb : bm_wf lb) by (destruct ls; [apply bm_wf_full | exact Hl]).
+    assert (Hsame : sel_has (Some ls) o = bm_mem lb o).
+    { destruct ls; cbn [sel_has]; [unfold lb; rewrite bm_mem_full, Eo; reflexivity | reflexivity]. }
+    rewrite Hsame. destruct (bm_is_empty (bm_diff lb rb)) eqn:Em; cbn [sel_has].
+    + assert (Hw : bm_wf (bm_diff lb rb)) by (apply bm_wf_diff; assumption).
+      pose proof (proj1 (bm_is_empty_spec _ Hw) Em o) as Hm. rewrite bm_mem_diff in Hm. symmetry; exact Hm.
+    + apply bm_mem_diff.
 Qed.
 
 Lemma sel_sub_wf ls rs s : sel_wf ls -> sel_wf rs -> sel_sub ls rs = Some s -> sel_wf s.
 Proof.
-  intros Hl Hr. destruct rs as [|rb]; [discriminate|].
-  destruct ls as [|lb].
-  - change (Some (Partial (bm_diff bm_full rb)) = Some s -> sel_wf s).
-    intros [= <-]. change (bm_wf (bm_diff bm_full rb)). apply bm_wf_diff; [apply bm_wf_full | exact Hr].
-  - change ((if bm_is_empty (bm_diff lb rb) then None else Some (Partial (bm_diff lb rb))) = Some s -> sel_wf s).
-    destruct (bm_is_empty (bm_diff lb rb)); [discriminate|].
-    intros [= <-]. change (bm_wf (bm_diff lb rb)). apply bm_wf_diff; assumption.
+  intros Hl Hr. destruct rs as [|rb]; [discriminate|]. cbn [sel_sub]. cbv zeta.
+  set (lb := match ls with Full => bm_full | Partial lb => lb end).
+  assert (Hlb : bm_wf lb) by (destruct ls; [apply bm_wf_full | exact Hl]).
+  destruct (bm_is_empty (bm_diff lb rb)); [discriminate|].
+  intros [= <-]. change (bm_wf (bm_diff lb rb)). apply bm_wf_diff; assumption.
 Qed.
 
 Lemma sub_step_wf acc k rs : tm_wf acc -> k < two32 -> sel_wf rs -> tm_wf (sub_step acc (k, rs)).
 Proof.
   intros Ha Hk Hr. unfold sub_step. destruct (aget k acc) as [[|lb]|] eqn:E.
-  - destruct rs as [|rb]; [apply tm_wf_adel; assumption|].
-    apply tm_wf_aput; try assumption. cbn [sel_wf]. apply bm_wf_diff; [apply bm_wf_full | assumption].
-  - destruct rs as [|rb]; [apply tm_wf_adel; assumption|]. cbn zeta.
+  - destruct rs as [|rb]; [apply tm_wf_adel; assumption|]. cbv zeta.
+    destruct (bm_is_empty (bm_diff bm_full rb)); [apply tm_wf_adel; assumption|].
+    apply tm_wf_aput; try assumption. change (bm_wf (bm_diff bm_full rb)). apply bm_wf_diff; [apply bm_wf_full | assumption].
+  - destruct rs as [|rb]; [apply tm_wf_adel; assumption|]. cbv zeta.
     destruct (bm_is_empty (bm_diff lb rb)); [apply tm_wf_adel; assumption|].
-    apply tm_wf_aput; try assumption. cbn [sel_wf]. apply bm_wf_diff; [apply (tm_wf_aget _ _ _ Ha E) | assumption].
+    apply tm_wf_aput; try assumption. change (bm_wf (bm_diff lb rb)). apply bm_wf_diff; [apply (tm_wf_aget _ _ _ Ha E) | assumption].
   - assumption.
 Qed.
 
@@ -1692,43 +1693,23 @@ Proof.
   unfold tm_and, tm_canon. apply Forall_forall. intros e He. apply filter_In in He as [_ He]. exact He.
 Qed.
 
-(* subtraction: the only way to create an empty bitmap is Full minus a bitmap holding every offset *)
-Definition sub_bad (a : treemap) (e : N * sel) : bool :=
-  match aget (fst e) a, snd e with
-  | Some Full, Partial rb => bm_is_empty (bm_diff bm_full rb)
-  | _, _ => false
-  end.
-Definition Known_C21_full_minus_whole_bitmap (a b : treemap) : bool := existsb (sub_bad a) b.
-
-Lemma sub_step_canon acc k rs : tm_canon acc -> sub_bad acc (k, rs) = false -> tm_canon (sub_step acc (k, rs)).
+(* subtraction removes an entry whose bitmap became empty, in both the Partial and (since 7f76aa9) the Full arm *)
+Lemma sub_step_canon acc k rs : tm_canon acc -> tm_canon (sub_step acc (k, rs)).
 Proof.
-  intros Hc Hbad. unfold sub_step. unfold sub_bad in Hbad. cbn [fst snd] in Hbad.
-  destruct (aget k acc) as [[|lb]|] eqn:E.
-  - destruct rs as [|rb]; [apply canon_filter; exact Hc|].
-    apply canon_aput; [cbn [sel_nonempty]; rewrite Hbad; reflexivity | exact Hc].
+  intros Hc. unfold sub_step. destruct (aget k acc) as [[|lb]|] eqn:E.
+  - destruct rs as [|rb]; [apply canon_filter; exact Hc|]. cbv zeta.
+    destruct (bm_is_empty (bm_diff bm_full rb)) eqn:Em; [apply canon_filter; exact Hc|].
+    apply canon_aput; [cbn [sel_nonempty]; rewrite Em; reflexivity | exact Hc].
   - destruct rs as [|rb]; [apply canon_filter; exact Hc|]. cbv zeta.
     destruct (bm_is_empty (bm_diff lb rb)) eqn:Em; [apply canon_filter; exact Hc|].
     apply canon_aput; [cbn [sel_nonempty]; rewrite Em; reflexivity | exact Hc].
   - exact Hc.
 Qed.
 
-Lemma tm_sub_canon a b : tm_wf b -> tm_canon a -> Known_C21_full_minus_whole_bitmap a b = false ->
-  tm_canon (tm_sub a b).
+Lemma tm_sub_canon a b : tm_canon a -> tm_canon (tm_sub a b).
 Proof.
-  intros [Hs _] Hca. unfold tm_sub, Known_C21_full_minus_whole_bitmap. revert a Hca.
-  induction b as [|[k rs] r IH]; intros a Hca Hk; cbn [fold_left]; [exact Hca|].
-  cbn [existsb] in Hk. apply orb_false_iff in Hk as [Hk1 Hk2].
-  unfold keys in Hs. cbn [map fst] in Hs. apply lsorted_cons_inv in Hs as [Hr Hlt].
-  apply IH; [exact Hr | apply sub_step_canon; assumption|].
-  (* the other entries look at keys different from k, which sub_step left alone *)
-  apply not_true_is_false. intro Hex. apply existsb_exists in Hex as [[k' rs'] [Hin Hb]].
-  assert (Hne : k' <> k).
-  { rewrite Forall_forall in Hlt. specialize (Hlt k' (in_map fst _ _ Hin)). cbn in Hlt. lia. }
-  assert (Hsame : sub_bad a (k', rs') = true).
-  { unfold sub_bad in *. cbn [fst snd] in *. rewrite sub_step_get in Hb.
-    destruct (N.eqb_spec k' k); [congruence | exact Hb]. }
-  assert (existsb (sub_bad a) r = true) by (apply existsb_exists; exists (k', rs'); split; assumption).
-  congruence.
+  unfold tm_sub. revert a. induction b as [|[k rs] r IH]; intros a Hca; cbn [fold_left]; [exact Hca|].
+  apply IH. apply sub_step_canon. exact Hca.
 Qed.
 
 (* insert_range never leaves an empty bitmap behind (F15: insert_range(5..5) used to) *)
